@@ -19,8 +19,8 @@ class _Skip(Exception):
 
 
 def gen_history_shortcuts(rng: random.Random, n: int):
-    """Histories that also call `ndx.where` with scalar boolean conditions (data or placeholder): steps b:<0|1> | q:<name> |
-    gw:<c>,<x>,<y> besides the plain ones.  Cells are typed (int64 vectors / boolean scalars); `s` stays within a type."""
+    """Histories that also call `ndx.where` with scalar boolean conditions (data or placeholder) and `ndx.logical_and` /
+    `ndx.logical_or` on boolean scalars: steps b:<0|1> | q:<name> | gw:<c>,<x>,<y> | ga:<x>,<y> | go:<x>,<y> besides the plain ones.  Cells are typed (int64 vectors / boolean scalars); `s` stays within a type."""
     steps, kinds = [], []
     names = 0
     def cells(kind):
@@ -40,11 +40,15 @@ def gen_history_shortcuts(rng: random.Random, n: int):
             else:
                 steps.append(f"q:c{names}"); names += 1
             kinds.append("b")
-        elif r < 0.6 and len(ints) >= 1:
+        elif r < 0.5 and len(ints) >= 1:
             xi = rng.choice(ints)
             yi = rng.choice([i for i in ints if i != xi] or ints)
             steps.append(f"gw:{rng.choice(bools)},{xi},{yi}")
             kinds.append("i")
+        elif r < 0.62:
+            # logical_and / logical_or on boolean scalars: both operand orders of the two-sided shortcut
+            steps.append(f"{rng.choice(['ga', 'go'])}:{rng.choice(bools)},{rng.choice(bools)}")
+            kinds.append("b")
         elif r < 0.75:
             op = rng.choice(["add", "mul", "sub", "abs_", "neg"])
             ar = {"abs_": 1, "neg": 1}.get(op, 2)
@@ -118,6 +122,11 @@ def run_impl(histories: list[list[str]]) -> list[str]:
                         raise _Skip()       # the equal-branches fold is another mechanism (a recorded finding), not this shortcut
                     r = ndx.where(from_corearray(cells[ci]), from_corearray(cells[xi]), from_corearray(cells[yi]))
                     cells.append(r._core())
+                elif p[0] in ("ga", "go"):
+                    from ndonnx._core._utils import from_corearray
+                    ai, bi = (int(i) for i in p[1].split(","))
+                    fn = ndx.logical_and if p[0] == "ga" else ndx.logical_or
+                    cells.append(fn(from_corearray(cells[ai]), from_corearray(cells[bi]))._core())
                 elif p[0] == "c":
                     cells.append(cells[int(p[1])].copy())
                 elif p[0] == "s":
